@@ -1,11 +1,12 @@
 """C01 - every ionizable group is predicted exactly once with the right model pKa."""
 import ast
 
-from sa.astutil import (call_name, calls_in, dotted, norm, walk_no_nested, fact_texts,
+from sa.astutil import (facts_at, call_name, calls_in, dotted, norm, walk_no_nested, fact_texts,
                         last_attr, names_in, guards_of, str_consts, try_fold, enclosing_loops,
                         literal, FoldError)
 from sa.consteval import eval_init
 from sa.loader import AnalysisError
+from sa.canon import canon
 from sa.tables import Cfg, columns_of_slice
 from checks import common, groups as G
 from checks.recordloop import RecordLoop, check_terminus_latch
@@ -359,5 +360,78 @@ def run(ctx):
     # same group (find_group's key) is already in the average container
     from checks import c08
     c08.averaging_rules(ctx, lambda name: 'C01.R8')
+    # ------------------------------------------------------------------ R9
+    # "once in the reported summary": a group that is covalently coupled to
+    # another titratable group is penalised by coupling_effects and, with
+    # remove_penalised_group = 1 (shipped), printed as an empty string.  Groups
+    # are coupled when their defining atoms are within
+    # coupling_max_number_of_bonds bonds and carry the same sybyl type - and
+    # every protein atom carries the same (empty) sybyl type.  So a protein site
+    # is dropped from the report whenever the residue templates put its
+    # defining atom that close to another site's defining atom.
+    ccm = prog.mod('conformation_container')
+    fcc = ccm.func('ConformationContainer.find_covalently_coupled_groups')
+    ccan = canon(fcc)
+    couples = [c for c in calls_in(fcc, nested=False) if last_attr(c) == 'couple_covalently']
+    cond_texts = []
+    protein_excluded = False
+    if len(couples) == 1:
+        for e, pol in facts_at(couples[0], fcc):
+            t = ccan.text(e)
+            cond_texts.append(('' if pol else 'not ') + t)
+            # a conjunct that can only hold for typed (hetero) atoms
+            if pol and ((isinstance(e, ast.Attribute) and e.attr == 'sybyl_type')
+                        or (isinstance(e, ast.Compare) and ".atom.type == 'hetatm'" in t)
+                        or (isinstance(e, ast.Compare) and t.endswith(".sybyl_type != ''"))):
+                protein_excluded = True
+    sybyl_writers = sorted({'%s.%s' % (m2.name, q2) for m2, q2, f2 in prog.all_funcs()
+                            for n in walk_no_nested(f2) if isinstance(n, (ast.Assign, ast.AugAssign))
+                            for t in (n.targets if isinstance(n, ast.Assign) else [n.target])
+                            if isinstance(t, ast.Attribute) and t.attr == 'sybyl_type'})
+    typed_only_ligands = all(w.startswith(('ligand.', 'protonate.', 'atom.')) for w in sybyl_writers)
+    drop = gmod.func('Group.get_summary_string')
+    drops = any(isinstance(n, ast.If) and 'coupled_titrating_group' in norm(n.test)
+                and any(isinstance(r, ast.Return) for r in n.body) for n in walk_no_nested(drop))
+    max_bonds = cfg.num('coupling_max_number_of_bonds')
+    removes = cfg.num('remove_penalised_group')
+    ctx.note('covalent_coupling', {'conditions': cond_texts, 'sybyl_type_writers': sybyl_writers,
+                                   'max_bonds': max_bonds, 'remove_penalised_group': removes,
+                                   'protein_groups_excluded': protein_excluded})
+    bonds_tpl = prog.protein_bonds()
+    bb = eval_init(prog, 'bonds', 'BondMaker').get('self.intra_residue_backbone_bonds') or {}
+
+    def template_distance(res, a, b):
+        graph = {}
+        for x, ns in list(bonds_tpl.get(res, {}).items()) + list(bb.items()):
+            for y in ns:
+                graph.setdefault(x, set()).add(y)
+                graph.setdefault(y, set()).add(x)
+        seen, frontier, d = {a}, {a}, 0
+        while frontier and b not in seen:
+            d += 1
+            frontier = {y for x in frontier for y in graph.get(x, ()) if y not in seen}
+            seen |= frontier
+        return d if b in seen else None
+    n_r9 = 0
+    for key in sorted(mapping):
+        res, atom = key.split('-')
+        if res not in bonds_tpl or mapping[key] not in pkas and res not in pkas:
+            continue
+        for term, tatom in (('N+', 'N'), ('C-', 'O')):
+            d = template_distance(res, tatom, atom)
+            if d is None:
+                continue
+            n_r9 += 1
+            coupled = d <= max_bonds and not protein_excluded and typed_only_ligands and drops \
+                and removes
+            ctx.ob('C01.R9', 'terminal-site-not-coupled:%s/%s' % (term, key), not coupled,
+                   'the %s group of a terminal %s and its side-chain site %s are %d bonds apart '
+                   '(limit for covalent coupling: %d, same sybyl type required - all protein atoms '
+                   'have the empty type): %s' % (
+                       term, res, key, d, max_bonds,
+                       'they are coupled, one of the two is penalised and printed as an empty '
+                       'row, so the site is missing from the determinant table and the summary'
+                       if coupled else 'not coupled'), ccm, couples[0] if couples else fcc)
+    ctx.need('C01.R9', 8)
     ctx.assume('the terminus tagger is checked for re-arming events and key completeness only, '
                'not as a transducer over all record sequences')
